@@ -72,7 +72,7 @@ def run(ctx):
     ctx.loop_guard('C06.r1', F, is_hash_ne, 'false', gname='calc_filter_hash(parent, filter) != expected', sinks=sinks)
 
     # r2 accepted prefix
-    mins = P.call_sites(F, lambda k, t: k == 'cmp::min' or k.endswith('cmp::min'))
+    mins = P.call_sites(F, lambda k, t: k == 'Ord::min')
     ctx.floor('C06.r2', 'cmp::min(filters_count, expected.len())', len(mins), 1)
     mt = mins[0][1]
     o0, o1 = org(mt.args[0]), org(mt.args[1])
@@ -280,7 +280,7 @@ def anchoring(ctx):
         a, b = far(c[3]), far(c[4])
         for x, y in ((a, b), (b, a)):
             is_next_cp = 'Peers::calc_check_point_number' in x and 'Peers::get_cached_block_filter_hashes' in x and 'Vec::len' not in x
-            is_extent = any(k.endswith('BlockFilters::start_number') for k in y) and (any(k.endswith('cmp::min') or k.endswith('BytesVec::len') for k in y))
+            is_extent = any(k.endswith('BlockFilters::start_number') for k in y) and (any(k == 'Ord::min' or k.endswith('BytesVec::len') for k in y))
             if is_next_cp and is_extent:
                 extent.append(c)
     U = ctx.body('Peers::update_cached_block_filter_hashes')
